@@ -54,11 +54,11 @@ pub fn property() -> Property {
         ],
         subs: vec![
             // heaviest first
-            prop_sub("large_n", 24, 80, |t: Tier| large_strategy(t.pick(250, 600), t.pick(600, 2000)), oracle::check).chunks(12),
+            prop_sub("large_n", 36, 160, |t: Tier| large_strategy(t.pick(250, 600), t.pick(600, 2000)), oracle::check).chunks(12),
             prop_sub(
                 "shrink",
-                320,
-                5000,
+                1600,
+                20000,
                 |t: Tier| {
                     case_strategy(Flavor { n_lo: 10, n_hi: t.pick(90, 120), shrinking: true, single: false, c_lo: -100, c_hi: 300 })
                 },
@@ -67,8 +67,8 @@ pub fn property() -> Property {
             .chunks(16),
             prop_sub(
                 "noshrink",
-                2000,
-                24000,
+                8000,
+                96000,
                 |_t: Tier| case_strategy(Flavor { n_lo: 10, n_hi: 120, shrinking: false, single: false, c_lo: -200, c_hi: 300 }),
                 oracle::check,
             )
@@ -76,8 +76,8 @@ pub fn property() -> Property {
             .require(&["task_c_svc", "task_nu_svc", "task_eps_svr", "task_one_class", "has_free_sv", "has_bounded_sv"]),
             prop_sub(
                 "f32",
-                600,
-                5000,
+                2400,
+                20000,
                 |_t: Tier| case_strategy(Flavor { n_lo: 10, n_hi: 60, shrinking: false, single: true, c_lo: -200, c_hi: 100 }),
                 oracle::check,
             )
